@@ -188,7 +188,9 @@ class World:
             mask = np.isfinite(ref)
             checked += int(mask.sum())
             scale = np.maximum(np.abs(ref), np.abs(got))
-            bad = mask & ~(np.abs(got - ref) <= 1e-9 * scale + 1e-12)
+            finite = ref[mask]
+            floor = 1e-12 * (1 + (float(np.abs(finite).max()) if finite.size else 0.0))
+            bad = mask & ~(np.abs(got - ref) <= 1e-9 * scale + floor)
             if bad.any():
                 i = tuple(int(k) for k in np.argwhere(bad)[0])
                 raise PropertyViolation("C09/%s/wrong-binding" % what, "%s(x,t)%s = %.15g but the values assigned by name give "
